@@ -37,6 +37,9 @@ type ICSWorld struct {
 	A, B  *ibctesting.TestChain
 	Path  *ibctesting.Path
 	seq   uint64
+	C     *ibctesting.TestChain // a second counterparty: its channel to B is channel-0 on C and channel-1 on B
+	PathC *ibctesting.Path      // EndpointA on C, EndpointB on B
+	seqC  uint64
 	X     common.Address // an externally-owned ERC-20 on B (deployed and mintable by XOwner)
 }
 
@@ -49,15 +52,22 @@ func (w *ICSWorld) xOwner() common.Address {
 func newICSWorld(t *testing.T) *ICSWorld {
 	ibctesting.DefaultTestingAppInit = app.SetupTestingApp
 	ibctesting.ChainIDPrefix = "teleport_9000-"
-	coord := ibctesting.NewCoordinator(t, 2)
+	coord := ibctesting.NewCoordinator(t, 3)
 	a, b := coord.GetChain(ibctesting.GetChainID(1)), coord.GetChain(ibctesting.GetChainID(2))
+	cc := coord.GetChain(ibctesting.GetChainID(3))
 	path := ibctesting.NewPath(a, b)
 	path.EndpointA.ChannelConfig.PortID = ibctesting.TransferPort
 	path.EndpointB.ChannelConfig.PortID = ibctesting.TransferPort
 	path.EndpointA.ChannelConfig.Version = transfertypes.Version
 	path.EndpointB.ChannelConfig.Version = transfertypes.Version
 	coord.Setup(path)
-	w := &ICSWorld{Coord: coord, A: a, B: b, Path: path}
+	pathC := ibctesting.NewPath(cc, b)
+	pathC.EndpointA.ChannelConfig.PortID = ibctesting.TransferPort
+	pathC.EndpointB.ChannelConfig.PortID = ibctesting.TransferPort
+	pathC.EndpointA.ChannelConfig.Version = transfertypes.Version
+	pathC.EndpointB.ChannelConfig.Version = transfertypes.Version
+	coord.Setup(pathC)
+	w := &ICSWorld{Coord: coord, A: a, B: b, Path: path, C: cc, PathC: pathC}
 	w.fixHeaders()
 	// the external token X
 	ctor, err := erc20ABI.Pack("", "ext", "EXT", uint8(18))
@@ -76,7 +86,7 @@ func newICSWorld(t *testing.T) *ICSWorld {
 // fixHeaders: the test bed's headers carry no proposer (NextBlock drops it after every transaction); the EVM
 // needs one (coinbase) for every call, so it is restored before every step.
 func (w *ICSWorld) fixHeaders() {
-	for _, c := range []*ibctesting.TestChain{w.A, w.B} {
+	for _, c := range []*ibctesting.TestChain{w.A, w.B, w.C} {
 		c.CurrentHeader.ProposerAddress = c.Vals.GetProposer().Address
 		c.App.BeginBlock(abci.RequestBeginBlock{Header: c.CurrentHeader})
 	}
@@ -89,6 +99,11 @@ func (w *ICSWorld) userB() sdk.AccAddress { return w.B.SenderAccount.GetAddress(
 // denomTrace of a coin of A arriving on B through the channel
 func (w *ICSWorld) voucher(base string) string {
 	return transfertypes.ParseDenomTrace(transfertypes.GetPrefixedDenom(w.Path.EndpointB.ChannelConfig.PortID, w.Path.EndpointB.ChannelID, base)).IBCDenom()
+}
+
+// voucherC: the voucher of a coin of C arriving on B (B's end of that channel has another identifier than C's)
+func (w *ICSWorld) voucherC(base string) string {
+	return transfertypes.ParseDenomTrace(transfertypes.GetPrefixedDenom(w.PathC.EndpointB.ChannelConfig.PortID, w.PathC.EndpointB.ChannelID, base)).IBCDenom()
 }
 
 func (w *ICSWorld) erc20Of(denom string) (common.Address, bool) {
@@ -141,7 +156,11 @@ func driveICS20(t *testing.T, in, out string, seed int64) {
 	defer tw.Close()
 	for bi, b := range behaviours {
 		w := newICSWorld(t)
-		denoms := map[string]string{"va": w.voucher("acoin"), "vb": w.voucher("bcoin")}
+		// vc: the same base denomination as va, arriving from C over a channel whose two ends have different identifiers
+		denoms := map[string]string{"va": w.voucher("acoin"), "vb": w.voucher("bcoin"), "vc": w.voucherC("acoin")}
+		if w.PathC.EndpointA.ChannelID == w.PathC.EndpointB.ChannelID {
+			t.Fatalf("the C-B channel has the same identifier on both ends")
+		}
 		tw.Emit(M{"ev": "Reset", "b": bi, "i": 0, "res": "ok", "args": M{}, "sig": "Reset", "st": w.project(denoms),
 			"ack": M{"stored": "none", "wrapped": "none", "same": true}, "dg": M{"pre": "", "post": ""}})
 		for si, st := range b {
@@ -151,7 +170,11 @@ func driveICS20(t *testing.T, in, out string, seed int64) {
 			w.fixHeaders()
 			switch act {
 			case "Recv":
-				base := map[string]string{"va": "acoin", "vb": "bcoin"}[str(st["denom"])]
+				base := map[string]string{"va": "acoin", "vb": "bcoin", "vc": "acoin"}[str(st["denom"])]
+				path, sender, seqp := w.Path, w.A, &w.seq
+				if str(st["denom"]) == "vc" {
+					path, sender, seqp = w.PathC, w.C, &w.seqC
+				}
 				amount := map[string]string{"1": "1", "2": "2", "zero": "0", "garbage": "1x", "neg": "-3"}[str(st["amt"])]
 				recv := w.userB().String()
 				switch str(st["recv"]) {
@@ -160,11 +183,11 @@ func driveICS20(t *testing.T, in, out string, seed int64) {
 				case "blocked":
 					recv = authtypes.NewModuleAddress(authtypes.FeeCollectorName).String()
 				}
-				data := transfertypes.FungibleTokenPacketData{Denom: base, Amount: amount, Sender: w.A.SenderAccount.GetAddress().String(), Receiver: recv}
-				w.seq++
-				packet := channeltypes.NewPacket(data.GetBytes(), w.seq, w.Path.EndpointA.ChannelConfig.PortID, w.Path.EndpointA.ChannelID,
-					w.Path.EndpointB.ChannelConfig.PortID, w.Path.EndpointB.ChannelID, clienttypes.NewHeight(clienttypes.ParseChainID(w.B.ChainID), 100000), 0)
-				if err := w.Path.EndpointA.SendPacket(packet); err != nil {
+				data := transfertypes.FungibleTokenPacketData{Denom: base, Amount: amount, Sender: sender.SenderAccount.GetAddress().String(), Receiver: recv}
+				*seqp++
+				packet := channeltypes.NewPacket(data.GetBytes(), *seqp, path.EndpointA.ChannelConfig.PortID, path.EndpointA.ChannelID,
+					path.EndpointB.ChannelConfig.PortID, path.EndpointB.ChannelID, clienttypes.NewHeight(clienttypes.ParseChainID(w.B.ChainID), 100000), 0)
+				if err := path.EndpointA.SendPacket(packet); err != nil {
 					t.Fatalf("send on counterparty failed: %v", err)
 				}
 				// what the wrapped transfer application returns for this packet, in a branched context
@@ -183,7 +206,7 @@ func driveICS20(t *testing.T, in, out string, seed int64) {
 					}
 				}()
 				w.fixHeaders()
-				err := w.Path.EndpointB.RecvPacket(packet)
+				err := path.EndpointB.RecvPacket(packet)
 				line["res"] = "ok"
 				if err != nil {
 					line["res"], line["msg"] = "err", clip(err.Error())
